@@ -172,10 +172,15 @@ def _child(w, path):
     os.replace(tmp, path)
 
 
+MAX_ATTEMPTS = 3
+
+
 def _run_processes(work, jobs, budget, t0):
     """one process per shard (fork), at most `jobs` at a time.  A worker that dies without a result
-    (e.g. a native crash inside a solver library) is retried once; a second death or the watchdog
-    makes the run inconclusive (exit 2), never a violation."""
+    (e.g. a native crash inside a solver library) is retried (same seed, so the same cases) up to
+    MAX_ATTEMPTS times in all; after that, or when the watchdog fires, the run is inconclusive
+    (exit 2), never a violation.  Process death as such is C20's subject (stress and gcthread
+    families run halmos in forked children and report a death as a failure)."""
     ctx = mp.get_context("fork")
     outdir = os.path.join(HOME, ".work", "shards", str(os.getpid()))
     os.makedirs(outdir, exist_ok=True)
@@ -205,10 +210,11 @@ def _run_processes(work, jobs, budget, t0):
                 del running[idx]
             elif not p.is_alive():
                 del running[idx]
-                if attempts[idx] < 2:
+                print(f"NOTE shard {idx} worker died without a result (exit code {p.exitcode}, attempt {attempts[idx]} of {MAX_ATTEMPTS})", file=sys.stderr)
+                if attempts[idx] < MAX_ATTEMPTS:
                     pending.append(w)
                 else:
-                    errs.append(f"shard {idx} worker died twice without a result (exit code {p.exitcode}): inconclusive")
+                    errs.append(f"shard {idx} worker died {MAX_ATTEMPTS} times without a result (exit code {p.exitcode}): inconclusive")
         if time.time() - t0 > budget:
             for idx, (p, path, w) in running.items():
                 errs.append(f"shard {idx} exceeded the watchdog ({budget}s): inconclusive")
